@@ -292,3 +292,51 @@ package inmem
 //@   ensures [update-others; using -] err == nil ==> sameStorageExcept(collection, old(mdOf(newResource).id))
 //@   ensures [update-fail-untouched; using -] err != nil ==> sameStorage(collection) && collection.writePos == acq(collection.writePos)
 //@   ensures [update-writeback] err == nil ==> *mdOf(newResource) == *mdOf(collection.storage[old(mdOf(newResource).id)])
+
+// ---------------------------------------------------------------------------
+// WatchAll (kind watch, single or aggregated): set-up and delivery goroutine.
+
+//@ func filterInPlaceMutating
+//@   trusted
+//@   requires [fn-nonnil] fn != nil
+//@   modifies elems(slc)
+//@   ensures [no-growth] len(result) <= len(slc) && result.blk == slc.blk && result.off == slc.off
+//@
+//@ func (*ResourceCollection).WatchAll
+//@   props C12 C02
+//@   autouse ring, logwf
+//@   requires collection != nil
+//@   requires [opts-nonnil] forall i int :: 0 <= i && i < len(opts) ==> opts[i] != nil
+//@   ensures [bookmark-accept-exact] err == nil && options.TailEvents <= 0 && options.StartFromBookmark != nil ==>
+//@     isBookmarkOf(options.StartFromBookmark, pos - 1) && collection.writePos - collection.capacity + collection.gap <= pos - 1 && 0 - 1 <= pos - 1 && pos - 1 < collection.writePos
+//@   ensures [bookmark-nothing-lost] err == nil && options.TailEvents <= 0 && options.StartFromBookmark != nil ==>
+//@     collection.writePos - pos <= collection.capacity && 0 <= pos && pos <= collection.writePos
+//@   ensures [bookmark-reject-class] options.TailEvents <= 0 && options.StartFromBookmark != nil && !options.BootstrapContents && err != nil ==> typeis(err, "eInvalidWatchBookmark")
+//@   ensures [bookmark-recent-accepted] options.TailEvents <= 0 && options.StartFromBookmark != nil && !options.BootstrapContents ==>
+//@     (forall p int64 :: isBookmarkOf(options.StartFromBookmark, p) && 0 <= p && p < collection.writePos && collection.writePos - (collection.cap0 - collection.gap) <= p ==> err == nil)
+//@   ensures [tail-exact] err == nil && options.TailEvents > 0 ==> options.TailEvents <= collection.capacity - collection.gap &&
+//@     pos == max(collection.writePos - options.TailEvents, 0)
+//@   ensures [live-start] err == nil && options.TailEvents <= 0 && options.StartFromBookmark == nil ==> pos == collection.writePos
+//@   loop #2
+//@     invariant [list-local] bootstrapList == nil || fresh(bootstrapList)
+
+// Delivery goroutine of WatchAll: each batch copied under the lock is exactly log[pos..writePos)
+// (pos is then advanced to writePos), so batches concatenate to the log suffix without gap or
+// overlap; Errored only on overrun.
+
+//@ func (*ResourceCollection).WatchAll$4
+//@   props C02 C12
+//@   autouse ring, logwf
+//@   assume [spawn] collection != nil && ctx != nil && 0 <= pos && pos <= collection.writePos
+//@   loop #2
+//@     invariant [outer] 0 <= pos && pos <= collection.writePos
+//@   loop #3
+//@     invariant [wait] held(collection.mu) && 0 <= pos && pos <= collection.writePos
+//@   at SendWithContext #6
+//@     assert [errored-only-on-overrun] collection.writePos - pos > collection.capacity
+//@   at SendWithContext #7
+//@     assert [errored-only-on-overrun-agg] collection.writePos - pos > collection.capacity
+//@   at filterInPlaceMutating #1
+//@     assert [window-advance] pos == collection.writePos && acq(pos) < pos && pos - acq(pos) <= collection.capacity
+//@     assert [window-len] len(events) == pos - acq(pos)
+//@     assert [window-exact; using ring] forall i int64 :: 0 <= i && i < pos - acq(pos) ==> events[i] == collection.log[acq(pos) + i]
